@@ -2,7 +2,7 @@
 import json, sys, glob, jsonschema
 schema = json.load(open('/root/.vp/EVIDENCE.schema.json'))
 bad = 0
-for f in sorted(glob.glob('/verif/evidence/*.json')):
+for f in sorted(glob.glob('/verif/evidence/*.json')) + sorted(glob.glob('/verif/evidence/by-tier/*.json')):
     try:
         e = json.load(open(f)); jsonschema.validate(e, schema)
         c = e['coverage']
